@@ -24,6 +24,9 @@ pub fn judge(plan: &ExecPlan, stats: &mut Stats) -> (Vec<(String, String, String
     if r.shared_locks > 0 {
         stats.inc("probe:shared_lock_contended");
     }
+    if r.contended_lazies > 0 {
+        stats.inc("probe:lazy_init_contended");
+    }
     let sig0 = format!("tasks={} sched={:?}", plan.tasks.len(), plan.sched);
     if let Some(f) = &r.failure {
         fails.push(("execution_failed".to_string(), sig0, format!("the simulated process did not complete: {f}")));
@@ -158,7 +161,7 @@ impl Prop for C06 {
     fn sanity(&self, stats: &Stats, _tier: Tier) -> Vec<String> {
         let mut e = vec![];
         if stats.c.get("runs") >= 500 {
-            for p in ["probe:shared_lock_contended", "ids_checked", "random_unit_checked", "random_limit_checked", "probe:boundary_limit", "probe:random_hit_upper_bound", "probe:random_hit_lower_bound"] {
+            for p in ["probe:shared_lock_contended", "probe:lazy_init_contended", "ids_checked", "random_unit_checked", "random_limit_checked", "probe:boundary_limit", "probe:random_hit_upper_bound", "probe:random_hit_lower_bound"] {
                 if stats.c.get(p) == 0 {
                     e.push(format!("{p} stuck at zero"));
                 }
